@@ -651,6 +651,103 @@ def c17(res, tier, seed, deep):
     return "few-men positions with a forced mate in <= 3 plies and at least two first moves that keep it (exhaustive solver); for each, the position after one of those moves is recorded in the artifact's history through the hook; searches at depth n and n+2, one worker (exact equality with the model) and 2-32 workers; spec: the final report is a winning terminal evaluation whose first move is not the recorded (repeating) one and keeps the mate"
 
 
+# ------------------------------------------------------------------------------------------------
+# process-level UCI properties
+
+def run_sessions(res, tag, sessions, parallel=4):
+    """sessions: [(name, cmds, eof)] — plan with the Lean session model, run the real binary, record"""
+    import uci_proc
+    from concurrent.futures import ThreadPoolExecutor
+    exe, msg = wee.build_weechess()
+    if exe is None:
+        res.broken.append("weechess binary does not build: " + msg[-400:])
+        return
+    pl = uci_proc.Planner()
+    planned = []
+    for name, cmds, eof in sessions:
+        cmds = cmds(pl) if callable(cmds) else cmds
+        planned.append((name, cmds, eof, pl.plan(cmds)))
+    pl.close()
+
+    def go(item):
+        name, cmds, eof, steps = item
+        try:
+            return uci_proc.run_session(exe, steps, eof=eof)
+        except Exception as e:  # a harness problem is reported, not hidden
+            return [f"session runner error: {e!r}"]
+    with ThreadPoolExecutor(max_workers=parallel) as ex:
+        results = list(ex.map(go, planned))
+    for (name, cmds, eof, steps), probs in zip(planned, results):
+        req = f"session {name}: " + " ; ".join(c for c, d in cmds)[:1500] + (" ; <EOF>" if eof else "")
+        res.add(req, "accepted" if not probs else "rejected: " + " | ".join(probs)[:1200], "accepted", "accepted", None)
+        res.tag(tag)
+        for st in steps:
+            res.tag("cmd_" + (st["first"] or "empty"))
+    return planned, results
+
+
+def c07(res, tier, seed, deep):
+    import uci_proc
+    rnd = random.Random(seed)
+    n = 150 if tier == "thorough" else (30 if deep else 12)
+    sessions = []
+    # fixed histories first: the former illegal-castling session (F1), a mated root (F2), a short move token (F4)
+    sessions.append(("f1-castling-rights", [("position fen 4k3/p6p/Pp4pP/1Pp2pP1/2Pp1P2/3P4/8/4K2R w K - 0 1", 0), ("go depth 4", 0),
+                     ("position fen 4k3/p6p/Pp4pP/1Pp2pP1/2Pp1P2/3P4/8/4K2R w - - 0 1", 1.0), ("go depth 4", 0), ("stop", 1.0)], False))
+    sessions.append(("f2-mated-root", [("position fen 3R2k1/5ppp/8/8/8/8/8/4K3 b - - 0 1", 0), ("go depth 2", 0), ("isready", 0.3), ("stop", 0)], False))
+    sessions.append(("book-and-eof", [("uci", 0), ("position startpos", 0), ("go depth 1", 0), ("position startpos moves e2e4", 0), (".state", 0), ("go", 0)], True))
+    for i in range(n):
+        sessions.append((f"random-{seed}-{i}", (lambda pl, r=random.Random(rnd.getrandbits(32)): uci_proc.gen_session(pl, r)), rnd.random() < 0.3))
+    run_sessions(res, "sessions", sessions)
+    return "command histories over {uci, isready, ucinewgame, position startpos|fen [legal moves], .state, go depth 1-3 | movetime 0-300 | (default), stop, quit/EOF} with random delays against the real binary; after every command the loop is synchronised with isready; the Lean session model predicts replies, position (checked through .state) and loop state (hook trace); spec: exactly one bestmove per go on a position with a legal move, printed before the next stop/go/position/quit has been processed, legal per the mailbox rules, exit status 0"
+
+
+def c18(res, tier, seed, deep):
+    import uci_proc
+    rnd = random.Random(seed)
+    n = 60 if tier == "thorough" else (16 if deep else 8)
+    sessions = []
+    # observable effect: a position searched in game 1 must not count as a repetition in game 2
+    sessions.append(("stale-history", [("position fen 8/8/8/8/8/k7/8/K2r4 w - - 5 4", 0), ("go depth 1", 0), ("stop", 0.3), ("ucinewgame", 0),
+                     ("position fen 8/8/8/8/8/k2r4/8/K7 b - - 4 3", 0), ("go depth 3", 0), ("stop", 1.0)], False))
+    for i in range(n):
+        def mk(pl, r=random.Random(rnd.getrandbits(32))):
+            cmds = uci_proc.gen_session(pl, r)
+            k = r.randrange(1, len(cmds) + 1)
+            tail = [("ucinewgame", r.choice([0, 0.05, 0.3])), ("isready", 0),
+                    ("position fen k7/8/2K5/8/8/8/8/7R w - - 0 1", 0), ("go depth 3", 0), ("stop", 1.0)]
+            return cmds[:k] + tail
+        sessions.append((f"newgame-{seed}-{i}", mk, False))
+    out = run_sessions(res, "sessions", sessions)
+    # the mate-in-one must be played after ucinewgame exactly as in a fresh process
+    exe, _ = wee.build_weechess()
+    if exe:
+        pl = uci_proc.Planner()
+        game2 = [("position fen 8/8/8/8/8/k2r4/8/K7 b - - 4 3", 0), ("go depth 3", 0), ("stop", 1.0)]
+        stale = pl.plan([("position fen 8/8/8/8/8/k7/8/K2r4 w - - 5 4", 0), ("go depth 1", 0), ("stop", 0.3), ("ucinewgame", 0)] + game2)
+        fresh = pl.plan(game2)
+        pl.close()
+        c1, c2 = {}, {}
+        uci_proc.run_session(exe, stale, capture=c1)
+        uci_proc.run_session(exe, fresh, capture=c2)
+        a, b = (c1.get("bestmoves") or ["none"])[-1], (c2.get("bestmoves") or ["none"])[-1]
+        res.add("session observable: mate-in-1 (Rd1#) searched after `go; stop; ucinewgame` on its successor vs in a fresh process",
+                a, a, b, None)
+    return "command histories (searches finished, running, stopped or not) followed by ucinewgame: the hook trace must show no running search and no stored artifact, and the following search is planned by the model as a fresh-memory search; plus the observable scenario: the successor of a mate-in-1 is searched in game 1, after ucinewgame the mating move must still be played (a stale history would treat it as a repetition)"
+
+
+def c14_uci(res, tier, seed, deep):
+    import uci_proc
+    rnd = random.Random(seed + 77)
+    n = 80 if tier == "thorough" else (16 if deep else 6)
+    sessions = [("f4-short-token", [("position startpos moves e2", 0), ("isready", 0), ("position startpos moves \u00e92e4", 0), ("isready", 0)], False)]
+    for i in range(n):
+        r = random.Random(rnd.getrandbits(32))
+        lines = uci_proc.garbage_lines(r, r.randrange(6, 16))
+        sessions.append((f"garbage-{seed}-{i}", [(l, 0) for l in lines] + [("stop", 0), ("isready", 0)], False))
+    run_sessions(res, "uci_garbage_sessions", sessions)
+
+
 def ray_mask(sq_, dirs):
     m = 0
     f0, r0 = sq_ % 8, sq_ // 8
@@ -1026,6 +1123,18 @@ def cbor_ok(tok, raw):
         return False
 
 
+def c14_all(res, tier, seed, deep):
+    rule = c14_parsers(res, tier, seed, deep)
+    # the release profile of the parsers (no overflow checks)
+    okr, msgr = wee.cargo_build("release")
+    if okr:
+        c14_parsers(res, "quick" if tier == "quick" else tier, seed + 1, False, harness=wee.harness_path("release"), profile="r")
+    else:
+        res.broken.append("release harness does not build: " + msgr[-300:])
+    c14_uci(res, tier, seed, deep)
+    return rule + "; both build profiles (overflow checks on/off); UCI: sessions of malformed lines (truncated and over-long move tokens, multi-byte characters, bad numbers, bad FEN, unknown commands, 70 kB lines) against the real process, each followed by isready; spec: the process stays alive, answers readyok, exits 0"
+
+
 CHECKS = {
     "C01": (c01, ["movegen", "moves", "state", "board", "attacks", "common"]),
     "C02": (c02, ["state", "moves", "board", "movegen"]),
@@ -1041,7 +1150,9 @@ CHECKS = {
     "C10": (c10, ["board", "state", "attacks"]),
     "C11": (c11, ["notation", "board", "state"]),
     "C12": (c12, ["notation", "moves", "corebook"]),
-    "C14": (c14_parsers, ["notation", "board", "uci"]),
+    "C14": (c14_all, ["notation", "board", "uci"]),
+    "C07": (c07, ["uci", "searcher", "enginebook", "state"]),
+    "C18": (c18, ["uci", "searcher"]),
     "C15": (c15, ["searcher"]),
     "C20": (c20, ["moves", "piece", "board"]),
 }
